@@ -350,6 +350,20 @@ def search(ctx):
             Nx, Ny = [(1100, 140), (150, 1300), (600, 130), (2100, 128)][ctx.seed % 4] if ctx.tier == "quick" else [(1100, 140), (150, 1300), (600, 130), (2100, 128)][(i // 3) % 4]
         sp = 0.1
         cx, cy = float(rng.uniform(0.25 * Nx, 0.75 * Nx)), float(rng.uniform(0.25 * Ny, 0.75 * Ny))
+        if i % 5 in (3, 4) and Nx <= 400 and Ny <= 400:
+            # a particle close to the border of the frame (2 ... 7 pixels from an edge; from two edges: a corner), each edge in turn
+            near = float(rng.uniform(2.0, 7.0))
+            edge = (i // 5) % 4
+            if edge in (0, 1):
+                cx = near if edge == 0 else Nx - 1 - near
+            else:
+                cy = near if edge == 2 else Ny - 1 - near
+            if i % 5 == 4:
+                near2 = float(rng.uniform(2.0, 7.0))
+                if edge in (0, 1):
+                    cy = near2 if (i // 20) % 2 == 0 else Ny - 1 - near2
+                else:
+                    cx = near2 if (i // 20) % 2 == 0 else Nx - 1 - near2
         r, nidx, z = float(rng.uniform(0.4, 0.9)), float(rng.uniform(1.45, 1.65)), float(rng.uniform(8, 20))
         ctx.tried("center_find", (Nx, Ny, round(cx, 2), round(cy, 2)))
         det = detector_grid((Nx, Ny), sp)
